@@ -757,6 +757,8 @@ class Container:
             amount_to_add = Unit.convert(source, quantity, 'U')
         else:
             amount_to_add = Unit.convert(source, quantity, config.moles_storage_unit)
+        if round(amount_to_add, config.internal_precision) < 0 or round(volume_to_add, config.internal_precision) < 0:
+            raise ValueError("Quantity to add must not be negative.")
         if round(self.volume + volume_to_add, config.internal_precision) > self.max_volume:
             raise ValueError("Exceeded maximum volume")
         self.volume = round(self.volume + volume_to_add, config.internal_precision)
@@ -808,6 +810,8 @@ class Container:
         else:
             raise ValueError("Invalid quantity unit.")
 
+        if round(ratio, config.internal_precision) < 0:
+            raise ValueError("Quantity to transfer must not be negative.")
         if round(ratio, config.internal_precision) > 1:
             raise ValueError(f"Not enough mixture left in source container ({source_container.name}).")
 
